@@ -476,6 +476,15 @@ def sorted_model(ex, v, rev, node):
     conc = ex.try_iter_concrete(v)
     if conc is not None and len(conc) <= 1:
         return ex.alloc(CList(tuple(conc)))
+    if conc is not None and len(conc) <= 3 and all(is_z3(lift(x)) and not is_bool(lift(x)) for x in conc):
+        # a list with a short concrete spine: sorted exactly by a comparison network (no assumed contract needed)
+        xs = [lift(x) for x in conc]
+        for i in range(len(xs)):
+            for j in range(len(xs) - 1 - i):
+                a, b = numeric_join(xs[j], xs[j + 1])
+                lo, hi = z3.If(a <= b, a, b), z3.If(a <= b, b, a)
+                xs[j], xs[j + 1] = (hi, lo) if rev else (lo, hi)
+        return ex.alloc(CList(tuple(xs)))
     ex.assumptions.add("builtin.sorted: result has the same length, is ordered, and is a rearrangement of the argument (index maps p, q)")
     s = ex.as_seq(v)
     t, u = fresh("t"), fresh("u")
